@@ -288,22 +288,39 @@ func checkC16(p *Prog, r *Report) {
 	checkCleanPerl(p, rText, cp)
 
 	/* 4. Name and buffers. */
+	/* Every name derived from the file's name by cutting a suffix is
+	TrimSuffix(Base(name), Ext(name)); there is at least one, and it is
+	used.  (Other TrimSuffix calls, on other strings, are other matters.) */
 	var tsfx *ssa.Call
-	eachInstr(fp, func(i ssa.Instruction) {
-		if c, ok := i.(*ssa.Call); ok && "strings.TrimSuffix" == calleeName(c.Common()) {
-			tsfx = c
-		}
-	})
 	nameP := fp.Params[0]
 	okName := false
-	if nil != tsfx {
-		b, ok1 := tsfx.Common().Args[0].(*ssa.Call)
-		e, ok2 := tsfx.Common().Args[1].(*ssa.Call)
+	badName := false
+	eachInstr(fp, func(i ssa.Instruction) {
+		c, ok := i.(*ssa.Call)
+		if !ok || "strings.TrimSuffix" != calleeName(c.Common()) {
+			return
+		}
+		fromName := false
+		for _, x := range valueRoots(c.Common().Args[0], nil) {
+			if x.V == ssa.Value(nameP) {
+				fromName = true
+			}
+		}
+		b, ok1 := c.Common().Args[0].(*ssa.Call)
+		e, ok2 := c.Common().Args[1].(*ssa.Call)
 		if ok1 && ok2 && "path/filepath.Base" == calleeName(b.Common()) && "path/filepath.Ext" == calleeName(e.Common()) &&
 			b.Common().Args[0] == ssa.Value(nameP) && e.Common().Args[0] == ssa.Value(nameP) {
-			okName = true
+			if nil != c.Referrers() && len(*c.Referrers()) > 0 {
+				okName = true
+				tsfx = c
+			}
+			return
 		}
-	}
+		if fromName || (ok1 && "path/filepath.Base" == calleeName(b.Common())) {
+			badName = true
+		}
+	})
+	okName = okName && !badName
 	if okName {
 		rName.OK(fnName(fp)+":func-name", posOf(tsfx), "TrimSuffix(Base(name), Ext(name))")
 	} else {
